@@ -24,7 +24,9 @@ Theorem C09_canonical_uri_roundtrip n :
 Proof. exact (name_canonical_uri_roundtrip n). Qed.
 Print Assumptions C09_canonical_uri_roundtrip.
 
-(* URI with naming-convention shorthands, numbers canonically encoded *)
+(* URI with naming-convention shorthands.  [uri_comp_num]: a component of a naming-convention type whose value has
+   1, 2, 4 or 8 octets (the only ones printed as a number, after fix 5dad9f3) is the shortest-width encoding of that
+   number; every other component -- any type, any value bytes, any length -- is unrestricted *)
 Theorem C09_uri_roundtrip n :
   Forall uri_comp_num n -> (do u <- name_to_str n ;; name_from_str u) = Ok n.
 Proof. exact (name_uri_roundtrip n). Qed.
